@@ -10,7 +10,7 @@ from gen import members, sweep
 
 RULE = ("circuits of every kind the API hands out are generated and their instruction lists inspected: (a) preparation, "
         "readout and compressed circuits for >= 1 constructed member of every (n, connectivity, LC class) [3 members for n<=5 "
-        "in quick; 4 / 3 in thorough]; (b) all 744 MUB circuits; (c) Hypothesis: tomography and stabilizer-measurement "
+        "in quick; 12 / 8 in thorough] and for the graph state every table entry itself stores; (b) all 744 MUB circuits; (c) Hypothesis: tomography and stabilizer-measurement "
         "circuits on ordered m-subsets of N <= 8 qubits (only the instructions after the caller's preparation prefix, "
         "mapped back through the qubit list); (d) exhaustively: get_connectivity_graph for the 20 configurations vs. the "
         "transcribed edge table. A case is one returned circuit; non-trivial = contains >= 1 two-qubit gate and the "
@@ -101,6 +101,22 @@ def shard_members(arg):
                 i += 1
                 case = {"n": n, "connectivity": name, "strings": sweep.strings(gens, n), "circuit": circ, "_sample": i % 900 == 1}
                 check_member_case(case, rep)
+    return rep
+
+
+def shard_table_graphs(arg):
+    """the graph state each table entry itself stores (identity frame), for every configuration and class"""
+    n, name, ids, seed = arg
+    from gen import tableinfo
+    rep = fw.Report()
+    ent = tableinfo.parsed(n, name)
+    for k in ids:
+        if k >= len(ent) or ent[k] is None:
+            continue
+        gid = ent[k][0]
+        gens = lc.graph_state_gens(n, gid)
+        circ = [["h", [q]] for q in range(n)] + [["cz", list(e)] for e in lc.edges_from_gid(n, gid)]
+        check_member_case({"n": n, "connectivity": name, "strings": sweep.strings(gens, n), "circuit": circ if k % 3 == 0 else None, "_sample": False}, rep)
     return rep
 
 
@@ -218,6 +234,8 @@ def shard(arg):
         return shard_members(arg[1:])
     if kind == "static":
         return shard_static(arg[1:])
+    if kind == "table-graphs":
+        return shard_table_graphs(arg[1:])
     return shard_measure(arg[1:])
 
 
@@ -228,9 +246,13 @@ def run(ctx):
         k = (3 if n <= 5 else 1) if q else (12 if n <= 5 else 8)
         for chunk in fw.split(members.orbit_reps(n), {2: 1, 3: 1, 4: 2, 5: 12, 6: 96}[n]):
             args.append(("members", n, chunk, k, ctx.seed, ctx.deadline))
+    kc = {2: 2, 3: 5, 4: 18, 5: 93, 6: 760}
+    for (n, name) in coupling.CONFIGS:
+        for chunk in fw.split(list(range(kc[n])), 1 if n < 6 else 4):
+            args.append(("table-graphs", n, name, chunk, ctx.seed))
     for i in range(16):
         args.append(("measure", ctx.seed * 1000 + i, 12 if q else 1200, ctx.deadline))
-    args.sort(key=lambda a: (0 if a[0] == "members" else 1, -(a[1] if a[0] == "members" else 0)))
+    args.sort(key=lambda a: (0 if a[0] in ("members", "table-graphs") else 1, -(a[1] if a[0] in ("members", "table-graphs") else 0)))
     rep = fw.run_shards(ctx, "props.c02", "shard", args)
     rep.extra["exhaustive"] = False
     rep.extra["exhaustive_part"] = "coupling graphs of the 20 configurations and all 744 MUB circuits are checked completely in every run"
